@@ -254,7 +254,7 @@ def generate(rng, tier):
     if rng.random() < 0.15:
         t0 = NULL
     tips = {"src": s0, "tgt": t0, "master": t0 if rng.random() < 0.6 else rng.choice(revs), "build": specs[-1]["id"]}
-    model = Model(gm, tips, separate, gm.ancestry(t0))
+    model = Model(gm, dict(tips), separate, gm.ancestry(t0))
     ops = []
     tags = {"src": {}, "tgt": {}}
     for i in range(rng.randint(0, 2)):
@@ -329,6 +329,7 @@ def generate(rng, tier):
             op = ["uncommit", rng.randint(1, len(lh))]
         ops.append(op)
         apply(op)
+    tips = {k: v for k, v in tips.items() if k != "build"}  # the build branch's tip is whatever the last revision leaves
     return {"fmt": fmt, "specs": specs, "separate": separate, "tips": tips, "tags": tags, "ops": ops}
 
 
